@@ -156,3 +156,10 @@ def setterBody (B : Base) (fd : FieldDef) : Option Expr :=
     | none => e
 
 end Bb
+
+namespace Bb
+/-- body of `with_f`: `Self { raw_value: #new_raw_value }` -/
+def withBody (B : Base) (fd : FieldDef) : Option Expr := setterBody B fd
+/-- body of `set_f`: `self.raw_value = #new_raw_value;` – the macro interpolates the same token stream twice -/
+def setBody (B : Base) (fd : FieldDef) : Option Expr := setterBody B fd
+end Bb
